@@ -12,8 +12,15 @@ S2  every enumerated case is executed: BinaryCIFData(arr, chain).serialize() -> 
     BinaryCIFData.deserialize; outcome and decoded values are compared with the specification's
     (exact values, or the acceptance interval computed by TLC).  Diagnostic: encoded bytes and
     filled-in parameters against the model's.
+    compress() as an operation of its own (MCCompress.tla): float32 / float64 arrays of decimal
+    floats of every magnitude class (1e-306 .. 1e300, the int32 boundary of the scaled values on both
+    sides, one-sided overflow, zero, NaN, infinities) x tolerances 1e-1 .. 1e-6, and int32 arrays on
+    the type boundaries of _to_smallest_integer_type; S1 checks that whatever the modelled search for
+    the decimals + range check + fall-back may return is inside the relative tolerance; every case is
+    executed and judged by TLC (Trace.tla, kinds "compressx" / "compress").
 S3  random arrays of every dtype (length <= 60), random chains and parameters, compress() with
-    several tolerances, whole files with masks: recorded and re-computed by TLC.
+    several tolerances (fixed-point universe, and decimal floats of any magnitude), whole files with
+    masks: recorded and re-computed by TLC.
 """
 
 from __future__ import annotations
@@ -219,6 +226,128 @@ def run_compress(A, T):
     return out
 
 
+# --------------------------------------------------------------------------- decimal floats (compress)
+CPU_LIMIT = 0.5      # seconds of CPU time of this process; an ordinary compress() call takes ~1 ms
+
+
+class _Diverges(BaseException):
+    pass
+
+
+def _on_vtalrm(_sig, _frm):
+    raise _Diverges()
+
+
+def sci_to_numpy(A):
+    """Arr(t, [k, m, p]) -> numpy array: the nearest float of m * 10^p."""
+    import numpy as np
+
+    out = []
+    for x in A["v"]:
+        k = x["k"]
+        if k == "num":
+            out.append(float(Fraction(x["m"]) * Fraction(10) ** x["p"]))      # correctly rounded
+        else:
+            out.append({"nan": float("nan"), "pinf": float("inf"), "ninf": float("-inf")}[k])
+    return np.array(out, dtype=np.float64).astype(TYPES[A["t"]])
+
+
+def sci_project(arr, A):
+    """Decoded array -> element i in units 10^p of the input element i."""
+    import math
+    import numpy as np
+
+    if not np.issubdtype(arr.dtype, np.floating) or arr.dtype.name not in ("float32", "float64"):
+        return {"t": -1, "v": []}
+    vals = arr.tolist()
+    out = []
+    for j, y in enumerate(vals):
+        y = float(y)
+        if math.isnan(y):
+            out.append({"k": "nan", "fx": 0, "ex": True})
+        elif math.isinf(y):
+            out.append({"k": "pinf" if y > 0 else "ninf", "fx": 0, "ex": True})
+        else:
+            p = A["v"][j]["p"] if j < len(A["v"]) else 0
+            f = Fraction(y) / Fraction(10) ** p
+            fx = round(f)
+            if abs(fx) >= 2 ** 31:
+                out.append({"k": "junk", "fx": 0, "ex": False})
+            else:
+                out.append({"k": "num", "fx": int(fx), "ex": f.denominator == 1})
+    return {"t": 32 if arr.dtype.name == "float32" else 33, "v": out}
+
+
+def run_compress_sci(A, T):
+    """compress(BinaryCIFData(A), 1/T) -> serialize -> deserialize, under a CPU-time limit."""
+    import math
+    import signal
+    import warnings
+    import numpy as np
+    from biotite.structure.io.pdbx import BinaryCIFData, compress
+    import biotite.structure.io.pdbx as px
+
+    out = {"oc": "Rejected", "B": {"t": 0, "v": []}, "packed": "Rejected", "hasFP": False, "d": 0}
+    arr = sci_to_numpy(A)
+    old = signal.signal(signal.SIGVTALRM, _on_vtalrm)
+    with warnings.catch_warnings():
+        warnings.simplefilter("ignore")
+        try:
+            signal.setitimer(signal.ITIMER_VIRTUAL, CPU_LIMIT)
+            try:
+                c = compress(BinaryCIFData(arr), float_tolerance=1.0 / T)
+            finally:
+                signal.setitimer(signal.ITIMER_VIRTUAL, 0)
+            d2 = BinaryCIFData.deserialize(c.serialize())
+        except _Diverges:
+            out["oc"] = "Diverges"
+            return out
+        except Exception:  # noqa: BLE001  any refusal
+            return out
+        finally:
+            signal.setitimer(signal.ITIMER_VIRTUAL, 0)
+            signal.signal(signal.SIGVTALRM, old)
+        out["oc"] = "ok"
+        out["B"] = sci_project(d2.array, A)
+        enc = c.encoding
+        if enc and isinstance(enc[0], px.FixedPointEncoding):
+            out["hasFP"] = True
+            out["d"] = int(round(math.log10(enc[0].factor)))
+        try:
+            _ser, d3 = write_read(c)
+            same = d3.array.dtype == d2.array.dtype and np.array_equal(d3.array, d2.array, equal_nan=True)
+            out["packed"] = "ok" if same else "differs"
+        except Exception:  # noqa: BLE001
+            out["packed"] = "Rejected"
+    return out
+
+
+def sci_event(A, T):
+    r = run_compress_sci(A, T)
+    return {"kind": "compressx", "A": A, "T": T, "oc": r["oc"], "B": r["B"], "packed": r["packed"],
+            "hasFP": r["hasFP"], "d": r["d"]}
+
+
+def int_compress_event(A, T):
+    r = run_compress(A, T)
+    return {"kind": "compress", "A": A, "T": T, "chain": r["chain"], "hasFP": r["hasFP"], "d": r["d"],
+            "oc": r["oc"], "B": r["B"]}
+
+
+def exec_compress_cases(item):
+    """S2 of the compress() family: execute the cases TLC enumerated; the events are judged by TLC."""
+    from harness.tlabind.pool import progress
+
+    events = []
+    for case in item["cases"]:
+        progress({"fam": case["fam"], "A": case["arr"], "T": case["tol"]})
+        if case["fam"] == "sci":
+            events.append(sci_event(case["arr"], case["tol"]))
+        else:
+            events.append(int_compress_event(case["arr"], case["tol"]))
+    return {"events": events}
+
+
 # --------------------------------------------------------------------------- S2 child
 def _accepted(case, B):
     A = case["arr"]
@@ -329,17 +458,85 @@ def _rand_int_chain(rng, t, vals):
     return chain
 
 
+def _sci_elem(rng, t, sig_digits, exp10):
+    """A Dom_SciElem value with `sig_digits` random significant digits and leading digit at 10^exp10
+    (None when the draw is not in the domain: too close to a power of ten / outside the normal range)."""
+    sig = rng.randint(10 ** (sig_digits - 1), 10 ** sig_digits - 1) if sig_digits > 1 else rng.randint(2, 9)
+    m = sig * 10 ** (9 - sig_digits)
+    p = exp10 - 8
+    maxdec = 38 if t == 32 else 308
+    if not (100100000 <= m <= 999000000) or 9 + p > maxdec - 1 or 8 + p < -(33 if t == 32 else 307):
+        return None
+    return {"k": "num", "m": m if rng.random() < 0.6 else -m, "p": p}
+
+
+def _rand_sci_array(rng, t, n):
+    """Float arrays of decimal floats: one magnitude profile per array."""
+    profile = rng.choice(["tiny", "tiny", "coords", "fractions", "onesided", "onesided", "boundary", "boundary",
+                          "large", "wide"])
+    lowest = -30 if t == 32 else rng.choice([-30, -120, -290])
+    base = rng.randint(lowest, -8)
+    vals = []
+    while len(vals) < n:
+        r = rng.random()
+        if r < 0.03:
+            vals.append({"k": rng.choice(["nan", "pinf", "ninf"]), "m": 0, "p": 0})
+            continue
+        if r < 0.08:
+            vals.append({"k": "num", "m": 0, "p": 0})
+            continue
+        if profile == "tiny":
+            x = _sci_elem(rng, t, rng.randint(1, 6), base + rng.randint(-2, 2))
+        elif profile == "coords":
+            e = rng.randint(-1, 2)
+            x = _sci_elem(rng, t, e + 4, e)                      # three decimals
+        elif profile == "fractions":
+            x = _sci_elem(rng, t, rng.randint(1, 4), rng.randint(-6, -1))
+        elif profile == "large":
+            x = _sci_elem(rng, t, rng.randint(1, 7), rng.randint(5, 30 if t == 32 else 200))
+        elif profile == "wide":
+            x = _sci_elem(rng, t, rng.randint(1, 5), rng.randint(-36, 36) if t == 32 else rng.randint(-300, 300))
+        else:
+            x = _sci_elem(rng, t, rng.randint(1, 4), rng.randint(-4, 1))
+        if x is not None:
+            vals.append(x)
+    if profile == "onesided" and n >= 2:
+        # values of one sign far beyond the others: only one side can leave int32 after scaling
+        sign = rng.choice([1, -1])
+        for _ in range(rng.choice([1, 1, 2])):
+            x = None
+            while x is None:
+                x = _sci_elem(rng, t, rng.randint(1, 3), rng.randint(6, 12))
+            x["m"] = sign * abs(x["m"])
+            vals[rng.randrange(n)] = x
+    if profile == "boundary" and n >= 2:
+        # a partner that needs `dec` decimals, and a value whose scaled magnitude is around int32 max
+        dec = rng.randint(1, 5)
+        two = rng.choice([k for k in range(11, 100) if k % 10])
+        vals[0] = {"k": "num", "m": two * 10 ** 7, "p": -dec - 7}
+        m = 214748365 + rng.choice([-1, 0, 1, rng.randint(-400, 400), rng.randint(-40000, 40000)])
+        vals[rng.randrange(1, n)] = {"k": "num", "m": m * rng.choice([1, -1]), "p": 1 - dec}
+    return {"t": t, "v": vals}
+
+
 def gen_trace(item):
     from harness.tlabind.pool import progress
 
     rng = random.Random(item["seed"])
     events = []
     for _ in range(item["n"]):
-        kind = rng.choice(["chain"] * 6 + ["compress"] * 3 + ["file"])
+        kind = rng.choice(["chain"] * 6 + ["compress"] * 3 + ["compressx"] * 3 + ["file"])
         n = rng.choice([0, 1, 1, 2, 3, 5, 8, 13, 21, 40, 60])
         family = rng.choice(["int", "int", "float", "float", "str"])
         if kind == "file":
             events.append(_file_event(rng))
+            continue
+        if kind == "compressx":
+            t = rng.choice([32, 33])
+            A = _rand_sci_array(rng, t, max(n, 1) if rng.random() < 0.9 else 2)
+            T = rng.choice([10, 100, 1000, 10000] + ([100000, 1000000] if t == 33 else []))
+            progress({"kind": kind, "A": A, "T": T})
+            events.append(sci_event(A, T))
             continue
         if family == "int" and kind == "compress" and rng.random() < 0.5:
             # arrays on which one of the candidate chains of compress() clearly wins:
@@ -483,7 +680,10 @@ def _file_event(rng):
 
 # --------------------------------------------------------------------------- classification / replay
 KB2FINDING = {"FixedPointUnchecked": "C05-fixedpoint-unchecked", "IntervalUnchecked": "C05-interval-unchecked",
-              "CompressFloatUnchecked": "C05-compress-float-unchecked"}
+              "CompressFloatUnchecked": "C05-compress-float-unchecked",
+              "CompressDecimalsUnbounded": "C05-compress-decimals-unbounded",
+              "CompressFactorUnserialisable": "C05-compress-factor-unserialisable",
+              "CompressFloat32RangeCheck": "C05-compress-float32-range-check"}
 
 
 def classify(mm):
@@ -496,6 +696,9 @@ def classify(mm):
         return None
     if mm.get("kind") not in ("case", "event"):
         return None
+    if mm.get("ekind") == "compressx":
+        # Trace.tla names a class only when the event has exactly its shape; one class per event
+        return KB2FINDING.get(kb[0]) if len(kb) == 1 and kb[0].startswith("Compress") else None
     for k in ("CompressFloatUnchecked", "FixedPointUnchecked", "IntervalUnchecked"):
         if k in kb:
             return KB2FINDING[k]
@@ -511,6 +714,10 @@ def replay(record):
     if record.get("kind") == "event" and record.get("ekind") == "compress":
         r = run_compress(record["A"], record["T"])
         return {"observed": r, "input": record["A"], "mismatch": r["B"] != record["A"]}
+    if record.get("kind") == "event" and record.get("ekind") == "compressx":
+        r = run_compress_sci(record["A"], record["T"])
+        return {"observed": r, "input": record["A"], "recorded": {k: record.get(k) for k in ("oc", "B", "packed")},
+                "mismatch": r["oc"] != "ok" or r["packed"] != "ok" or r["B"] == record.get("B")}
     return {"error": "record kind not replayable", "record": record}
 
 
@@ -535,6 +742,12 @@ def run(ctx):
         "IntegerPacking without is_unsigned) refuse them; modelled as refusals",
         "compress(): relative tolerances 1e-1 .. 1e-3 on values with |x| >= 2*T*2^-20; the chain it chooses is read "
         "from the returned object",
+        "compress() on floats of any magnitude: decimal floats m*10^p with a nine-digit mantissa that is not within "
+        "0.1 % of a power of ten, normal numbers of the float type below 10^(MaxDec-1) (MaxDec = 38 / 308), zero, NaN, "
+        "infinities; tolerances 1/T with 2 <= T <= 1e6 (float32: 1e4); decoded values are compared in units of 10^p "
+        "with two units of slack (float32: plus 2^-20 relative); arrays on which float rounding noise could decide "
+        "the search for the decimals differently from decimal arithmetic (Dom_SciDecisive) are skipped and counted; "
+        "a call that uses more than 0.5 s of CPU time (an ordinary call: < 10 ms) is recorded as 'Diverges'",
         "trusted: TLC, the TLA+ value parser, the float <-> fixed-point projection (fractions.Fraction), numpy, msgpack",
     ]
     ctx.cov["rule"] = ("non-trivial = case whose chain has >= 2 encodings or a lossy encoding, or whose array has "
@@ -584,9 +797,74 @@ def run(ctx):
     for c in cases[:3]:
         ctx.sample({"s2_case": {"chain": c["chain"], "arr": c["arr"], "expected": c["exp"]}})
 
+    # ================================================================= compress() as an enumerated operation
+    cdone = []
+    for cfg in (["MCC.cfg"] if quick else ["MCC_thorough.cfg", "MCC_thorough3.cfg"]):
+        res, states = helpers.dump_states(ctx, "MCCompress", cfg, stage="S1", workers=12, timeout=2400)
+        part = [s for s in states if s["done"]]
+        if not part or 2 * len(part) != res.distinct:
+            raise RuntimeError(f"MCCompress/{cfg}: {len(part)} evaluated states of {res.distinct}")
+        ctx.cov["compress_cases_outside_domain"] = ctx.cov.get("compress_cases_outside_domain", 0) + sum(
+            1 for s in part if not s["dom"])
+        seen = {json.dumps([s["arr"], s["tol"]], sort_keys=True) for s in cdone}
+        cdone += [s for s in part if s["dom"] and json.dumps([s["arr"], s["tol"]], sort_keys=True) not in seen]
+    if 10 * ctx.cov["compress_cases_outside_domain"] > len(cdone):
+        raise Vacuity(f"MCCompress: {ctx.cov['compress_cases_outside_domain']} enumerated cases outside the domain")
+    per_ckb, per_fam = {}, {}
+    for s in cdone:
+        per_fam[s["fam"]] = per_fam.get(s["fam"], 0) + 1
+        for k in s["kb"]:
+            per_ckb[k] = per_ckb.get(k, 0) + 1
+    ctx.cov["compress_cases"] = len(cdone)
+    ctx.cov["compress_cases_per_family"] = per_fam
+    ctx.cov["compress_cases_per_kb_class"] = per_ckb
+    ctx.cov["compress_cases_decimals_range"] = [f([s["dstar"] for s in cdone if s["fam"] == "sci" and s["impl"]["fits"]])
+                                                for f in (min, max)]
+    if set(per_fam) != {"sci", "int"} or not {"CompressDecimalsUnbounded", "CompressFactorUnserialisable",
+                                              "CompressFloat32RangeCheck"} <= set(per_ckb):
+        raise Vacuity(f"compress() families / recorded classes not all enumerated: {per_fam} {per_ckb}")
+    # classes of the model's float branch that the enumeration must contain (decided by the specification,
+    # not by what the implementation did): many decimals with a lossy fixed-point result, negative decimals,
+    # a scaled value beyond int32 on the negative side only / the positive side only (fall-back)
+    sci = [s for s in cdone if s["fam"] == "sci" and s["impl"]["oc"] == "ok" and len(s["arr"]["v"]) > 1]
+    fixed = [s for s in sci if s["impl"]["fits"]]
+    fallback = [s for s in sci if not s["impl"]["fits"] and all(x["k"] == "num" for x in s["arr"]["v"])]
+
+    def beyond(s, sign):      # SciOverflow, re-stated only to count the classes
+        return any(x["m"] * sign > 0 and x["p"] + s["dstar"] >= 1 and
+                   (x["p"] + s["dstar"] > 9 or abs(x["m"]) * 10 ** (x["p"] + s["dstar"]) > 2 ** 31 - 1)
+                   for x in s["arr"]["v"])
+    classes = {"fixed_point_16_to_19_decimals": sum(1 for s in fixed if 15 < s["dstar"] < 20),
+               "fixed_point_16_to_19_decimals_rounded": sum(1 for s in fixed if 15 < s["dstar"] < 20
+                                                            and len(s["impl"]["ys"]) == 2),
+               "fixed_point_negative_decimals": sum(1 for s in fixed if s["dstar"] < 0),
+               "fallback_negative_side_only": sum(1 for s in fallback if beyond(s, -1) and not beyond(s, 1)),
+               "fallback_positive_side_only": sum(1 for s in fallback if beyond(s, 1) and not beyond(s, -1)),
+               "fallback_non_finite": sum(1 for s in sci if any(x["k"] != "num" for x in s["arr"]["v"]))}
+    ctx.cov["compress_model_classes"] = classes
+    if min(classes.values()) == 0:
+        raise Vacuity(f"MCCompress: a class of the float branch is not enumerated: {classes}")
+    ccases = [{k: s[k] for k in ("fam", "arr", "tol")} for s in cdone]
+    ctx.rng.shuffle(ccases)
+    citems = [{"cases": c} for c in helpers.chunked(ccases, 40)]
+    s2traces = []
+    for it, r in zip(citems, pool.run_isolated("harness.drivers.c05:exec_compress_cases", citems, item_timeout=600)):
+        if "driver_error" in r:
+            raise RuntimeError(f"S2 compress driver error: {r['driver_error']}\n{r.get('tb', '')}")
+        if "crash" in r:
+            ctx.mismatch({"stage": "S2", "kind": "crash", "signal": r["crash"], "progress": r.get("progress"),
+                          "item": it})
+        elif len(r["events"]) != len(it["cases"]):
+            raise RuntimeError("S2 compress: an enumerated case was not executed")
+        else:
+            s2traces.append(r["events"])
+    ctx.cov["s2_compress_cases_executed"] = sum(len(t) for t in s2traces)
+    ctx.nontrivial += sum(1 for s in cdone if len(s["arr"]["v"]) >= 2)
+    ctx.sample({"s2_compress_case": ccases[0]})
+
     # ================================================================= S3
     ntr = 32 if quick else 1000
-    per = 25 if quick else 50
+    per = 32 if quick else 64
     titems = [{"seed": ctx.rng.randrange(1 << 30), "n": per} for _ in range(ntr)]
     traces = []
     for it, r in zip(titems, pool.run_isolated("harness.drivers.c05:gen_trace", titems, item_timeout=300)):
@@ -597,11 +875,15 @@ def run(ctx):
                           "item": it})
         elif r["events"]:
             traces.append(r["events"])
+    # the executed S2 cases of the compress() family are judged by the same TLC run: traces 1 .. n_s2
+    n_s2 = len(s2traces)
+    s3traces = traces
+    traces = s2traces + s3traces
     d = tlc.scratch_dir("c05tr")
     tf = os.path.join(d, "traces.json")
     with open(tf, "w") as fh:
         json.dump(traces, fh)
-    res = ctx.tlc("Trace", "Trace.cfg", stage="S3", workers=1, env={"TRACE_FILE": tf}, timeout=2400)
+    res = ctx.tlc("Trace", "Trace.cfg", stage="S2+S3", workers=1, env={"TRACE_FILE": tf}, timeout=2400)
     expect = sum(len(t) + 1 for t in traces)
     if res.distinct != expect:
         raise RuntimeError(f"C05 S3: trace validation visited {res.distinct} states, expected {expect}")
@@ -620,38 +902,56 @@ def run(ctx):
         raise RuntimeError(f"C05 S3: generator left the domain in {len(notdom)} events, e.g. "
                            f"{json.dumps({k: e[k] for k in ('A', 'chain') if k in e})[:600]}")
     nev = sum(len(t) for t in traces)
-    ctx.traces_validated += len(traces)
+    ctx.traces_validated += sum(len(t) for t in s2traces) + len(s3traces)
     ctx.evaluations += nev
     kinds = {}
-    for t in traces:
+    for t in s3traces:
         for e in t:
             kinds[e["kind"]] = kinds.get(e["kind"], 0) + 1
-    ctx.cov["s3_traces"] = len(traces)
+    ctx.cov["s3_traces"] = len(s3traces)
     ctx.cov["s3_events_per_kind"] = kinds
-    ctx.cov["s3_outcomes"] = {oc: sum(1 for t in traces for e in t if e.get("oc") == oc) for oc in ("ok", "Rejected")}
+    ctx.cov["s3_outcomes"] = {oc: sum(1 for t in s3traces for e in t if e.get("oc") == oc)
+                              for oc in ("ok", "Rejected", "Diverges")}
     ctx.cov["s3_compress_chain_not_a_candidate"] = len(vals("NOTCAND"))
     if ctx.cov["s3_compress_chain_not_a_candidate"]:
         ctx.note(f"diagnostic: compress() chose a chain outside Candidates in "
                  f"{ctx.cov['s3_compress_chain_not_a_candidate']} events")
-    if set(kinds) != {"chain", "compress", "file"} or min(ctx.cov["s3_outcomes"].values()) == 0:
+    # decimal floats: events outside Dom_SciDecisive are skipped by the specification (counted)
+    outdom = vals("OUTDOM")
+    if any(v[1] <= n_s2 for v in outdom):
+        raise RuntimeError("C05 S2: an enumerated compress() case is outside Dom_SciDecisive")
+    nx = kinds.get("compressx", 0)
+    ctx.cov["s3_compressx_outside_decisive_domain"] = len(outdom)
+    ctx.cov["compressx_decimals_differ_from_model"] = len(vals("DDIFF"))
+    if ctx.cov["compressx_decimals_differ_from_model"]:
+        ctx.note(f"diagnostic: compress() chose another number of decimals than the model in "
+                 f"{ctx.cov['compressx_decimals_differ_from_model']} events")
+    xev = [e for t in traces for e in t if e["kind"] == "compressx"]
+    ctx.cov["compressx_decimals_observed_range"] = [min([e["d"] for e in xev if e["hasFP"]] + [0]),
+                                                    max([e["d"] for e in xev if e["hasFP"]] + [0])]
+    ctx.cov["compressx_fixed_point_chosen"] = sum(1 for e in xev if e["hasFP"])
+    if set(kinds) != {"chain", "compress", "compressx", "file"} or min(
+            ctx.cov["s3_outcomes"][oc] for oc in ("ok", "Rejected")) == 0:
         raise Vacuity(f"S3 did not exercise every event kind / outcome: {kinds} {ctx.cov['s3_outcomes']}")
-    ctx.nontrivial += sum(1 for t in traces for e in t if e["kind"] != "file" and len(e["A"]["v"]) >= 2)
-    ctx.sample({"s3_event": {k: traces[0][0][k] for k in traces[0][0] if k in ("kind", "A", "chain", "oc", "B")}})
+    if 4 * len(outdom) > nx:
+        raise Vacuity(f"S3: {len(outdom)} of {nx} compressx events outside the decisive domain")
+    ctx.nontrivial += sum(1 for t in s3traces for e in t if e["kind"] != "file" and len(e["A"]["v"]) >= 2)
+    ctx.sample({"s3_event": {k: s3traces[0][0][k] for k in s3traces[0][0] if k in ("kind", "A", "chain", "oc", "B")}})
     dirty = set()
     for v in vals("MISMATCH"):
         tid, l, verdict, kb, exp = v[1], v[2], v[3], v[4], v[5]
         dirty.add(tid - 1)
         e = traces[tid - 1][l - 1]
-        rec = {"stage": "S3", "kind": "event", "ekind": e["kind"], "tlc_known": verdict == "known", "kb": kb,
-               "expected": {"oc": exp}, "trace": tid, "event": l}
-        for k in ("A", "chain", "T", "B", "oc", "cin", "cout", "eq", "hasFP", "d"):
+        rec = {"stage": "S2" if tid <= n_s2 else "S3", "kind": "event", "ekind": e["kind"],
+               "tlc_known": verdict == "known", "kb": kb, "expected": {"oc": exp}, "trace": tid, "event": l}
+        for k in ("A", "chain", "T", "B", "oc", "cin", "cout", "eq", "hasFP", "d", "packed"):
             if k in e:
                 rec[k] = e[k]
         ctx.mismatch(rec)
     # binding self-test: corrupt the decoded array of clean traces
-    flagged = {(v[1], v[2]) for v in vals("MISMATCH")}
+    flagged = {(v[1], v[2]) for v in vals("MISMATCH")} | {(v[1], v[2]) for v in outdom}
     clean = [[e for j, e in enumerate(t) if (i + 1, j + 1) not in flagged] for i, t in enumerate(traces)]
-    clean = [t for t in clean if t]
+    clean = [t for t in clean[n_s2:] if t] + [t for t in clean[:n_s2] if t][:1]
 
     def corrupt(tr):
         for e in tr:
@@ -660,14 +960,32 @@ def run(ctx):
                 e["B"]["v"][0] += 1
                 return True
         return False
+
+    def corrupt_x(tr):
+        # a decoded decimal float moved by three times the tolerance
+        for e in tr:
+            if e["kind"] == "compressx" and e["oc"] == "ok":
+                for x, y in zip(e["A"]["v"], e["B"]["v"]):
+                    if x["k"] == "num" and x["m"] != 0 and y["k"] == "num" and e["T"] >= 100:
+                        y["fx"] += 3 * (abs(x["m"]) // e["T"]) + 2000
+                        return True
+        return False
     if clean:
-        helpers.binding_selftest(ctx, clean, corrupt, max_traces=3)
+        # one TLC run: three traces with a corrupted integer result, three with a corrupted decimal float
+        sel = clean[:3]
+        sel = sel + [t for t in clean if any(e["kind"] == "compressx" for e in t) and not any(t is u for u in sel)][:3]
+        calls = []
+
+        def corrupt_both(tr):
+            calls.append(1)
+            return corrupt(tr) if len(calls) <= 3 else corrupt_x(tr)
+        helpers.binding_selftest(ctx, sel, corrupt_both, max_traces=6)
     else:
         ctx.note("binding self-test skipped: no trace without disagreement")
 
 
 MANIFEST = {
     "technique": "TLA+ specification of the seven BinaryCIF encodings, their chains, BinaryCIFData serialisation and the candidate chains of compress() (specs/C05) model-checked by TLC; every enumerated (chain, array) case executed through BinaryCIFData.serialize -> msgpack -> deserialize; recorded random arrays, chains, compress() calls and files re-computed by TLC",
-    "level_text": "TLC enumerates integer arrays of every 8/16-bit type over their boundary values (length <=2, thorough 3, plus runs) and 32-bit arrays, float32/float64 arrays over dyadic values, NaN, infinities and large integers, and string arrays with empty and duplicate strings, each under the twelve chains compress() tries and explicit-parameter variants (narrow target types, wrong sizes, unsigned packing of negatives, given origins, fixed point with 4 factors, interval quantisation with 3 grids, string arrays with nested chains), and checks that the code-shaped model returns the array exactly / within half a fixed-point step / within the documented quantisation bin whenever the representation can hold it and refuses it otherwise, except in the two recorded classes; every case is then executed against the real encoders through msgpack and compared with the specification's outcome and acceptance interval. Random arrays up to 60 elements of all dtypes with random chains and parameters, compress() with tolerances 1e-1..1e-3 and whole files with masks are recorded and re-computed by TLC.",
-    "level_note": "Bounded: exhaustive only for arrays of <=2 (thorough 3) elements over boundary value sets; longer arrays only through recorded runs. Floats are restricted to dyadic values on which float arithmetic is exact (plus NaN/inf/large integers); fixed-point factors <=1000. Delta / IntegerPacking arithmetic crossing +-2^31, UINT32 values >= 2^31 and int64 input are not decided (TLC integers are 32 bit). The encoded byte form is compared with the model as a diagnostic only. Three recorded defects (unchecked float->int32 cast in FixedPoint and through compress(), IntervalQuantization outside [min,max]) are accepted only in their predicted shape. Trusted: TLC, the TLA+ value parser, the float<->fixed-point projection, numpy, msgpack.",
+    "level_text": "TLC enumerates integer arrays of every 8/16-bit type over their boundary values (length <=2, thorough 3, plus runs) and 32-bit arrays, float32/float64 arrays over dyadic values, NaN, infinities and large integers, and string arrays with empty and duplicate strings, each under the twelve chains compress() tries and explicit-parameter variants (narrow target types, wrong sizes, unsigned packing of negatives, given origins, fixed point with 4 factors, interval quantisation with 3 grids, string arrays with nested chains), and checks that the code-shaped model returns the array exactly / within half a fixed-point step / within the documented quantisation bin whenever the representation can hold it and refuses it otherwise, except in the two recorded classes; every case is then executed against the real encoders through msgpack and compared with the specification's outcome and acceptance interval. compress() is also enumerated as an operation: float32/float64 arrays (length <=2, thorough 3, optionally with a repeated tail) over decimal floats of every magnitude class from 1e-306 to 1e300 (more than 15 decimals, fractions, coordinates, the int32 boundary of the scaled values on both sides, one-sided overflow, zero, NaN, infinities) x tolerances 1e-1..1e-6 and int32 arrays on the integer type boundaries; TLC checks that the modelled search for the decimals + int32 range check + lossless fall-back stays inside the relative tolerance, every case is executed through compress -> serialize -> (msgpack) -> deserialize and judged by TLC. Random arrays up to 60 elements of all dtypes with random chains and parameters, compress() with tolerances 1e-1..1e-6 (fixed-point universe and decimal floats of any magnitude) and whole files with masks are recorded and re-computed by TLC.",
+    "level_note": "Bounded: exhaustive only for arrays of <=2 (thorough 3) elements over boundary value sets; longer arrays only through recorded runs. Floats are restricted to dyadic values on which float arithmetic is exact (plus NaN/inf/large integers); fixed-point factors <=1000. Delta / IntegerPacking arithmetic crossing +-2^31, UINT32 values >= 2^31 and int64 input are not decided (TLC integers are 32 bit). The encoded byte form is compared with the model as a diagnostic only. Recorded defects (unchecked float->int32 cast in FixedPoint and - fixed - through compress(), IntervalQuantization outside [min,max], compress(): endless search for the decimals beyond the float range, factor 10^d >= 2^64 not serialisable, float32 range check at 2^31) are accepted only in their predicted shape. compress() of floats is judged on decimal floats where float rounding noise cannot change the number of decimals chosen (other arrays are skipped, counted); which of fixed point / raw bytes compress() picks is not modelled. Trusted: TLC, the TLA+ value parser, the float<->fixed-point projection, numpy, msgpack.",
 }
